@@ -203,29 +203,50 @@ Section Expansion.
     unfold find_and_expand, find_uri. now rewrite find_uri_none.
   Qed.
 
-  Lemma expand_rec_unchanged f v v' :
-    expand_value def retrieve v = Ok (v', false) -> expand_rec def retrieve (S f) v = Ok v'.
+  Lemma expand_rec_unchanged f used v v' :
+    expand_value def retrieve v = Ok (v', false) -> expand_rec def retrieve (S f) used v = Ok v'.
   Proof. intros H. cbn [expand_rec]. now rewrite H. Qed.
 
-  Lemma expand_rec_changed f v v' :
-    expand_value def retrieve v = Ok (v', true) -> expand_rec def retrieve (S f) v = expand_rec def retrieve f v'.
+  Lemma budget_ok used c : used + c <= max_expansions -> (max_expansions <? used + c) = false.
+  Proof. intros H. now apply Nat.ltb_ge. Qed.
+
+  (* a round that changes the value, within the budget *)
+  Lemma expand_rec_changed f used v v' :
+    expand_value def retrieve v = Ok (v', true) -> used + spent def retrieve v <= max_expansions ->
+    expand_rec def retrieve (S f) used v = expand_rec def retrieve f (used + spent def retrieve v) v'.
+  Proof. intros H Hb. cbn [expand_rec]. now rewrite H, (budget_ok _ _ Hb). Qed.
+
+  Lemma expand_rec_error f used v e :
+    expand_value def retrieve v = Err e -> expand_rec def retrieve (S f) used v = Err e.
   Proof. intros H. cbn [expand_rec]. now rewrite H. Qed.
 
-  Lemma expand_rec_error f v e :
-    expand_value def retrieve v = Err e -> expand_rec def retrieve (S f) v = Err e.
-  Proof. intros H. cbn [expand_rec]. now rewrite H. Qed.
+  (* the same for the plain iteration of rounds (expand_rec_old) *)
+  Lemma expand_rec_old_unchanged f v v' :
+    expand_value def retrieve v = Ok (v', false) -> expand_rec_old def retrieve (S f) v = Ok v'.
+  Proof. intros H. cbn [expand_rec_old]. now rewrite H. Qed.
+
+  Lemma expand_rec_old_changed f v v' :
+    expand_value def retrieve v = Ok (v', true) -> expand_rec_old def retrieve (S f) v = expand_rec_old def retrieve f v'.
+  Proof. intros H. cbn [expand_rec_old]. now rewrite H. Qed.
+
+  Lemma expand_rec_old_error f v e :
+    expand_value def retrieve v = Err e -> expand_rec_old def retrieve (S f) v = Err e.
+  Proof. intros H. cbn [expand_rec_old]. now rewrite H. Qed.
+
+  Lemma max_expansions_pos : 2 <= max_expansions.
+  Proof. unfold max_expansions. lia. Qed.
 
   Lemma expand_value_str s : expand_value def retrieve (CStr s) = expand_string def retrieve s.
   Proof. reflexivity. Qed.
 
-  Lemma max_rounds_S : max_rounds = S 999.
+  Lemma rec_fuel_S : rec_fuel = S (S max_expansions).
   Proof. reflexivity. Qed.
 
   Lemma resolve_string_no_ref s :
     no_ref_b s = true -> resolve_string def retrieve s = Ok (CStr (unescape s)).
   Proof.
-    intros H. unfold resolve_string, resolve_leaf. rewrite max_rounds_S.
-    rewrite (expand_rec_unchanged _ _ (CStr s)); [reflexivity|].
+    intros H. unfold resolve_string, resolve_leaf. rewrite rec_fuel_S.
+    rewrite (expand_rec_unchanged _ _ _ (CStr s)); [reflexivity|].
     rewrite expand_value_str. now apply expand_string_no_ref.
   Qed.
 
@@ -344,6 +365,15 @@ Section OneRef.
   Lemma escape_scalar v : scalar v = true -> escape_dollars v = v.
   Proof. destruct v; try discriminate; reflexivity. Qed.
 
+  Lemma spent_whole n ret :
+    name_ok n = true -> ref_ok n = true ->
+    expand_uri def retrieve (ref_text n) = Ok ret ->
+    spent def retrieve (CStr (ref_text n)) = 1.
+  Proof.
+    intros Hn Hok He. cbn [spent]. unfold spent_string.
+    rewrite (expand_string_whole n ret Hn Hok He), guard_ref, (find_uri_whole n Hn Hok), str_eqb_refl. reflexivity.
+  Qed.
+
   (* typed value + original text *)
   Lemma resolve_whole_typed n ret o :
     name_ok n = true -> ref_ok n = true ->
@@ -351,10 +381,11 @@ Section OneRef.
     scalar (r_raw ret) = true -> as_string ret = Some o -> no_ref_b o = true ->
     resolve_string def retrieve (ref_text n) = Ok (CExp (r_raw ret) (unescape o)).
   Proof.
-    intros Hn Hok He Hs Ho Hno. unfold resolve_string, resolve_leaf. rewrite max_rounds_S.
-    rewrite (expand_rec_changed def retrieve _ _ (CExp (r_raw ret) o)).
+    intros Hn Hok He Hs Ho Hno. unfold resolve_string, resolve_leaf. rewrite rec_fuel_S.
+    rewrite (expand_rec_changed def retrieve _ _ _ (CExp (r_raw ret) o)).
     2:{ rewrite expand_value_str, (expand_string_whole n ret) by assumption. now rewrite Ho. }
-    rewrite (expand_rec_unchanged def retrieve _ _ (CExp (r_raw ret) o)).
+    2:{ rewrite (spent_whole n ret) by assumption. pose proof max_expansions_pos. lia. }
+    rewrite (expand_rec_unchanged def retrieve _ _ _ (CExp (r_raw ret) o)).
     - cbn [escape_dollars]. now rewrite escape_scalar.
     - cbn [expand_value]. rewrite (expand_value_scalar _ Hs).
       rewrite (expand_string_no_ref def retrieve o Hno).
@@ -368,10 +399,11 @@ Section OneRef.
     r_raw ret = CStr v -> as_string ret = Some o -> no_ref_b v = true ->
     resolve_string def retrieve (ref_text n) = Ok (CStr (unescape v)).
   Proof.
-    intros Hn Hok He Hv Ho Hno. unfold resolve_string, resolve_leaf. rewrite max_rounds_S.
-    rewrite (expand_rec_changed def retrieve _ _ (CExp (CStr v) o)).
+    intros Hn Hok He Hv Ho Hno. unfold resolve_string, resolve_leaf. rewrite rec_fuel_S.
+    rewrite (expand_rec_changed def retrieve _ _ _ (CExp (CStr v) o)).
     2:{ rewrite expand_value_str, (expand_string_whole n ret) by assumption. now rewrite Ho, Hv. }
-    rewrite (expand_rec_unchanged def retrieve _ _ (CStr v)); [reflexivity|].
+    2:{ rewrite (spent_whole n ret) by assumption. pose proof max_expansions_pos. lia. }
+    rewrite (expand_rec_unchanged def retrieve _ _ _ (CStr v)); [reflexivity|].
     cbn [expand_value]. now rewrite (expand_string_no_ref def retrieve v Hno).
   Qed.
 
@@ -402,13 +434,14 @@ Section OneRef.
     - now rewrite He.
   Qed.
 
-  (* ---- divergence: a value that keeps changing is refused after 1000 rounds ------------------------- *)
+  (* ---- divergence: a value that keeps changing is refused (budget or fuel, whichever ends first) ---------- *)
   Lemma expand_rec_diverges (P : cv -> Prop) :
     (forall v, P v -> exists v', expand_value def retrieve v = Ok (v', true) /\ P v') ->
-    forall fuel v, P v -> expand_rec def retrieve fuel v = Err [ETooMany].
+    forall fuel used v, P v -> expand_rec def retrieve fuel used v = Err [ETooMany].
   Proof.
-    intros Hstep fuel. induction fuel as [|f IH]; intros v Hv; [reflexivity|].
-    destruct (Hstep v Hv) as [v' [E Hv']]. rewrite (expand_rec_changed def retrieve f v v' E). now apply IH.
+    intros Hstep fuel. induction fuel as [|f IH]; intros used v Hv; [reflexivity|].
+    destruct (Hstep v Hv) as [v' [E Hv']]. cbn [expand_rec]. rewrite E.
+    destruct (max_expansions <? used + spent def retrieve v); [reflexivity|now apply IH].
   Qed.
 
   Lemma self_cycle_rejected n ret :
